@@ -39,6 +39,11 @@ SPEC = {"amp": {1: True, 2: True, 3: True},
         "theta": {1: False, 2: False, 3: True}}
 
 MUTANTS = [
+    ("islands split on consecutive labels only", "AegeanTools/source_finder.py",
+     "            groups = list(island_itergen(input_sources))",
+     "            import itertools\n"
+     "            groups = [list(g) for _, g in itertools.groupby(\n"
+     "                input_sources, key=lambda s: s.island)]", "C05-R13"),
     ("pre-fit box clipped with the row extent", "AegeanTools/source_finder.py",
      "                ymx = int(round(np.clip(cy + 2, 0, idata.shape[1])))",
      "                ymx = int(round(np.clip(cy + 2, 0, idata.shape[0])))",
@@ -321,6 +326,7 @@ def run(ctx):
         what="priorized fitting call graph")
     ctx.floor("C05-R12", n12, 15, "internal calls reachable from priorized "
               "fitting")
+    rule_groupby(ctx, prog)
     # blends are fitted jointly: default grouping length (shared with C19)
     from .c19 import default_linking_length
     ctx.rule("C05-R8", "blended sources are fitted jointly: the default "
@@ -679,3 +685,19 @@ def r5(ctx, prog):
               "Beam(nan, nan, nan) then raises and priorized fitting aborts "
               "for every catalogue lacking the optional columns" %
               (attr, default), {"default": default}, hp[0])
+
+
+def rule_groupby(ctx, prog):
+    from ..core import unsorted_groupby
+    ctx.rule("C05-R13", "any row order: itertools.groupby (which merges only "
+             "consecutive equal keys) is applied only to sequences sorted by "
+             "the grouping key in the module source_finder -- otherwise rows of one island that are not adjacent in the input catalogue end up in different groups and are fitted without their neighbours")
+    n = 0
+    for q, fi in sorted(prog.functions.items()):
+        if not fi.module.endswith("source_finder"):
+            continue
+        n += 1
+        bad = unsorted_groupby(prog, fi)
+        ctx.check("C05-R13", fi, "groupby inputs sorted in " + fi.short, not bad,
+                  bad[0][1] if bad else "", node=bad[0][0] if bad else fi.node)
+    ctx.floor("C05-R13", n, 5, "functions examined for groupby")
